@@ -93,6 +93,73 @@ Theorem C06_purged_stays : forall node es, fw_run node None es = (None, []).
 Proof. exact fw_C06_purged_stays. Qed.
 Print Assumptions C06_purged_stays.
 
+(* ---------------- the reception time, and the same bundle received again ----------------
+   Timed histories [fw_trun node st es]: the state is the stored item = the copy as handed in plus
+   its reception time [ti_rx] on a monotone clock (ms); events
+     FwTRecv b wall delay now copies keep   bundle [b] is handed in at [wall] (processed [delay] ms later)
+     FwTRetry wall now copies keep          a retry at [wall]: residence time = wall - ti_rx
+     FwTClean now
+   A bundle handed in while its ID is stored is a duplicate (whatever its hop count / age /
+   previous node say): it is not transmitted and changes neither the stored copy nor the reception
+   time; so the age transmitted by any later retry is the accepted age + the time since the FIRST
+   reception.  Handed in when the store does not hold it (any more), it is a new reception. *)
+Theorem C06_duplicate_ignored :
+  forall node it b wall delay now copies keep,
+    fw_tstep node (Some it) (FwTRecv b wall delay now copies keep) = (Some it, []).
+Proof. exact fw_dup_ignored. Qed.
+Print Assumptions C06_duplicate_ignored.
+
+Theorem C06_item_stable :
+  forall node it e st' outs, fw_tstep node (Some it) e = (st', outs) -> st' = None \/ st' = Some it.
+Proof. exact fw_titem_stable. Qed.
+Print Assumptions C06_item_stable.
+
+Theorem C06_residence_since_reception :
+  forall node it wall now copies keep st' outs o,
+    fw_tstep node (Some it) (FwTRetry wall now copies keep) = (st', outs) -> In o outs ->
+    fo_res o = wall - ti_rx it /\ fo_now o = now /\ fo_copies o = copies
+    /\ fo_result o = fw_touch_result copies (fw_retry node now (wall - ti_rx it) (ti_b it)).
+Proof. exact fw_tretry_residence. Qed.
+Print Assumptions C06_residence_since_reception.
+
+(* a duplicate arriving while the bundle is stored can be deleted from the history without changing
+   the final store state or anything that is transmitted, before or after it *)
+Theorem C06_duplicate_transparent :
+  forall node st es1 it o1 b wall delay now copies keep es2,
+    fw_trun node st es1 = (Some it, o1) ->
+    fw_trun node st (es1 ++ FwTRecv b wall delay now copies keep :: es2) = fw_trun node st (es1 ++ es2).
+Proof. exact fw_dup_transparent. Qed.
+Print Assumptions C06_duplicate_transparent.
+
+(* C06_faithful and C06_refuse over timed histories (any interleaving of receptions of any accepted
+   bundles, duplicates, retries and sweeps): every transmitted copy is a faithful copy of a bundle
+   that was handed in, with the age grown by [fo_res] (= wall - reception time for retries, by
+   C06_residence_since_reception), and what must be refused is refused *)
+Theorem C06_faithful_timed :
+  forall node es st outs o b'',
+    fw_node_ok node = true ->
+    (forall b, In b (fw_thanded es) -> exists now0, fw_accepted now0 b) ->
+    fw_trun node None es = (st, outs) ->
+    In o outs -> fw_copies_ok (fo_copies o) -> fo_result o = FwSend b'' ->
+    exists b, In b (fw_thanded es)
+    /\ (enc_bundle b'' = Some (bundle_bytes b'')
+        /\ dec_bundle (fo_now o) (bundle_bytes b'') = Some (b'', [])
+        /\ primary_bytes (b_pri b'') = primary_bytes (b_pri b)
+        /\ payload_of b'' = payload_of b)
+    /\ check_valid (fo_now o) b'' = true
+    /\ fw_faithful node (fo_res o) (fw_is_some (fo_copies o)) b b''.
+Proof. exact fw_C06_timed_faithful. Qed.
+Print Assumptions C06_faithful_timed.
+
+Theorem C06_refuse_timed :
+  forall node es st outs o,
+    (forall b, In b (fw_thanded es) -> exists now0, fw_accepted now0 b) ->
+    fw_trun node None es = (st, outs) -> In o outs ->
+    exists b, In b (fw_thanded es) /\ fw_out_of node b o
+              /\ (fw_must_refuse (fo_now o) (fo_res o) b -> exists r, fo_result o = FwRefuse r).
+Proof. exact fw_C06_timed_refuse. Qed.
+Print Assumptions C06_refuse_timed.
+
 (* ---------------- non-vacuity ---------------- *)
 Definition c06_node : eid := Dtn [110; 48] [].                       (* dtn://n0/ *)
 Definition c06_pri (time life : N) : primary :=
@@ -160,3 +227,17 @@ Example C06_ex_time_over :
   /\ fw_retry c06_node 5000 0 (c06_age 1000 3000 0) = FwRefuse FwLoad
   /\ fw_step c06_node (Some (c06_age 1000 3000 0)) (FwEvClean 5000) = (None, []).
 Proof. vm_compute. repeat split; reflexivity. Qed.
+
+(* received at 1000 (nobody to send to: kept), the same bundle again at 3000 - as it arrived over
+   another path: hop 4, age 900 -, retry at 4000: sent with hop 3 and age 10 + 3000, not 10 + 1000 *)
+Definition c06_b_otherpath : bundle :=
+  {| b_pri := c06_pri 1000 3600000;
+     b_blocks := [c06_blk 3 0 2 (XHop 5 4); c06_blk 2 1 0 (XAge 900); c06_blk 4 16 0 (XGeneric 200 [1]);
+                  c06_blk 1 0 1 (XPayload [104; 105])] |}.
+Example C06_ex_duplicate :
+  let '(st, outs) := fw_trun c06_node None [FwTRecv c06_b 1000 0 2000 None true; FwTRecv c06_b_otherpath 3000 0 4000 None true;
+                                            FwTRetry 4000 5000 None false] in
+  st = None /\ map fo_res outs = [0; 3000]
+  /\ nth_error (map fo_result outs) 1 = Some (fw_retry c06_node 5000 3000 c06_b)
+  /\ exists b', fw_retry c06_node 5000 3000 c06_b = FwSend b' /\ find_type 7 (b_blocks b') = Some (c06_blk 2 1 0 (XAge 3010)).
+Proof. vm_compute. repeat split. eexists. split; reflexivity. Qed.
